@@ -270,6 +270,18 @@ struct Runner {
         else { if (full) x.m.pop_front(); x.m.push_back(v); }
         if (E::val(*r) != v) fail("C04", "model-mismatch", op, "pushing an element of the buffer itself inserted " + std::to_string(E::val(*r)) + " instead of " + std::to_string(v));
     }
+    // emplace with an empty argument pack: a value-initialised element
+    void emplaceDefault(int i, bool front) {
+        Slot &x = s[i];
+        bool full = x.m.size() == x.cap;
+        note(x, full ? "emplace-default-overwrite" : "emplace-default");
+        log(std::string(front ? "efD#" : "ebD#") + std::to_string(i));
+        T *r = front ? &x.b->emplace_front() : &x.b->emplace_back();
+        int64_t v = E::val(T());
+        if (front) { if (full) x.m.pop_back(); x.m.push_front(v); }
+        else { if (full) x.m.pop_front(); x.m.push_back(v); }
+        if (E::val(*r) != v) fail("C04", "model-mismatch", op, "emplace with no arguments did not insert a value-initialised element");
+    }
     void popBack(int i) {
         Slot &x = s[i];
         note(x, "pop_back");
@@ -385,11 +397,11 @@ struct Runner {
         Other o(n + 1 + rng.below(3));
         size_t rot = rng.below(o.capacity());
         for (size_t k = 0; k < rot; ++k) { o.push_back(E::make(0)); T t = o.pop_front(); (void) t; }
-        for (size_t k = 0; k < n; ++k) o.push_back(E::make(x.m[k]));
+        for (size_t k = 0; k < n; ++k) { const Buf &cb = *x.b; o.push_back(cb[k]); }   // copies of the elements themselves (a value-initialised element has no make() form)
         if (!(*x.b == o)) fail("C04", "model-mismatch", "compare", "operator== across overwrite modes is false for equal contents");
         if (n && rng.chance(500)) {
             size_t k = rng.below(n);
-            o[k] = E::make(x.m[k] + 1000000);
+            o[k] = E::make((x.m[k] < -1000000000 ? 0 : x.m[k]) + 1000000);
             if (*x.b == o) fail("C04", "model-mismatch", "compare", "operator== across overwrite modes is true for different contents");
         } else {
             o.push_back(E::make(-5));
@@ -412,6 +424,7 @@ struct Runner {
             if (in(190)) { if ((i = pickValid(false, true)) >= 0) pushBack(i, rng.chance(400)); }
             else if (in(150)) { if ((i = pickValid(false, true)) >= 0) pushFront(i, rng.chance(400)); }
             else if (in(45)) { if ((i = pickValid(true, true)) >= 0) pushAlias(i, rng.chance(500)); }
+            else if (in(15)) { if ((i = pickValid(false, true)) >= 0) emplaceDefault(i, rng.chance(500)); }
             else if (in(90)) { if ((i = pickValid(true)) >= 0) popBack(i); }
             else if (in(90)) { if ((i = pickValid(true)) >= 0) popFront(i); }
             else if (in(50)) { if ((i = pickValid(true)) >= 0) writeIndex(i); }
